@@ -260,7 +260,13 @@ func c04Call(t *testing.T, em *verifEmitter, cfg c04Cfg, script []c04Op) {
 		for time.Since(base) < 3*time.Microsecond {
 		}
 	}
-	tr.emit(verifEv{"e": "reset", "kind": "rpcs", "tmo": c04Floor(cfg.effective()), "pdl": pdl,
+	// the settings as they are (interceptor default, the called method's entry); which timeout they
+	// amount to is decided by Layer P (Timeout.tla, TmoChoices)
+	ov := []int{}
+	if cfg.method > 0 {
+		ov = append(ov, c04Floor(cfg.method))
+	}
+	tr.emit(verifEv{"e": "reset", "kind": "rpcs", "glob": c04Floor(cfg.def), "ov": ov, "mw": true, "pdl": pdl,
 		"exempt": false, "s0": c04Floor(time.Since(base)), "pre": cfg.pre})
 	if cfg.pre == "cancel" {
 		tr.emit(verifEv{"e": "cancel"})
